@@ -24,18 +24,27 @@ def impl(case):
     cls = DDEHistory
     if case["cap"] is None and case["init_cap"] != 1024:
         cls = type("H", (DDEHistory,), {"_INITIAL_CAPACITY": case["init_cap"]})
-    h = cls(arr(case["y0"]), float(Fr(case["t0"])), max_steps=case["cap"])
+    def tval(x, ty):
+        """a time stamp supplied as the given scalar type; the value must be exactly representable in it"""
+        q = Fr(x)
+        mk = {None: float, "f64": np.float64, "f32": np.float32, "f16": np.float16, "longdouble": np.longdouble,
+              "i32": lambda v: np.int32(int(v)), "i64": lambda v: np.int64(int(v)), "int": lambda v: int(v),
+              "arr32": lambda v: np.array(v, dtype=np.float32), "arr64": lambda v: np.array(v, dtype=np.float64)}[ty]
+        v = mk(float(q)) if ty not in ("i32", "i64", "int") else mk(q)
+        assert Fr(float(v)) == q, (x, ty)
+        return v
+    h = cls(arr(case["y0"]), tval(case["t0"], case.get("t0_type")), max_steps=case["cap"])
     outs, passed = [], []
     for op in case["ops"]:
         if op[0] == "u":
             a = arr(op[2]); passed.append(a)
             try:
-                h.update(float(Fr(op[1])), a)
+                h.update(tval(op[1], op[3] if len(op) > 3 else None), a)
                 outs.append("done")
             except IndexError:
                 outs.append("refused")
         elif op[0] == "q":
-            r = np.asarray(h(float(Fr(op[1]))))
+            r = np.asarray(h(tval(op[1], op[2] if len(op) > 2 else None)))
             if r.shape != shape or r.dtype != np.dtype(dt):
                 outs.append(["wrong-shape-or-dtype", str(r.shape), str(r.dtype)])    # Spec: a query returns a state of the history's shape and dtype
             elif cplx:
@@ -52,8 +61,11 @@ def impl(case):
 WILD_VALUES = [1e16, 1.0, -3.3, 7e-9, 0.1, 123456.789, -1e15, 2.5e-7, 1/3, -0.7, 9007199254740993.0, 0.0]
 WILD_GAPS = [0.1, 0.3, 1e-3, 0.7, 2.2, 1/3]
 
-def gen_case(rng, big=False, wild=False, scaled=False):
-    """scaled: record times that are huge relative to their spacing (t0 = +-2^k, gaps down to 2^-(42-k)), negative times, and
+def gen_case(rng, big=False, wild=False, scaled=False, typed=False):
+    """typed: record (and some query) times are supplied as numpy scalars of every kind (float16/32/64, longdouble, int32/64),
+    0-d arrays and Python ints; record times are exactly representable in their type and sit at a large |t|/spacing, the float64
+    queries between them are NOT representable in float32/float16.
+    scaled: record times that are huge relative to their spacing (t0 = +-2^k, gaps down to 2^-(42-k)), negative times, and
     mixed scales (occasional gaps of the order of t0, so that negative histories cross zero); everything stays dyadic and
     exactly representable, so the comparison stays exact.
     wild: arbitrary (non-dyadic, badly scaled) float data with queries only at, before and after record times, where the
@@ -79,6 +91,18 @@ def gen_case(rng, big=False, wild=False, scaled=False):
             if rng.random() < 0.15:
                 return Fr(2) ** (kexp - rng.randint(0, 4))                       # a gap of the order of |t0|
             return Fr(rng.randint(1, 16), 2 ** rng.randint(max(0, jmax - 14), jmax))
+    ttype = None
+    if typed:
+        ttype = rng.choice(["f32", "f32", "f32", "arr32", "f16", "i32", "i64", "int", "longdouble", "arr64", "f64"])
+        mant = {"f32": 24, "arr32": 24, "f16": 11}.get(ttype, 40)
+        if ttype in ("i32", "i64", "int"):
+            t0 = Fr(rng.choice([1, -1]) * rng.randint(1, 10 ** 6))
+            gap = lambda: Fr(rng.randint(1, 9))
+        else:
+            kexp = rng.randint(3, mant - 8)
+            unit = Fr(1, 2 ** (mant - 2 - kexp))                     # record times use (almost) the whole mantissa of the type
+            t0 = rng.choice([1, 1, -1]) * Fr(2) ** kexp + unit * rng.randint(0, 7)
+            gap = lambda: unit * rng.randint(1, 4)
     times, t = [t0], t0
     nops = rng.randint(2500, 3300) if big else rng.randint(3, 60)
     ops = []
@@ -93,22 +117,25 @@ def gen_case(rng, big=False, wild=False, scaled=False):
             return times[i]
         i = rng.randrange(len(times) - 1)
         return times[i] + (times[i + 1] - times[i]) * Fr(rng.randint(0, 8), 8)
+    def qop():
+        q = qtime()
+        return ["q", str(q)] + ([ttype] if typed and q in times and rng.random() < 0.5 else [])
     for _ in range(nops):
         r = rng.random()
         if r < (0.97 if big else 0.5):
-            t = Fr(float(t) + rng.choice(WILD_GAPS)) if wild else (t + gap() if scaled else t + Fr(1, 8) * 2 ** rng.randint(0, 4))
+            t = Fr(float(t) + rng.choice(WILD_GAPS)) if wild else (t + gap() if (scaled or typed) else t + Fr(1, 8) * 2 ** rng.randint(0, 4))
             assert Fr(float(t)) == t
-            ops.append(["u", str(t), vec()])
+            ops.append(["u", str(t), vec()] + ([ttype if rng.random() < 0.8 else None] if typed else []))
             # a refused update does not enter the record list: track what the spec would accept
             if cap is None or len(times) < max(cap, 1):
                 times.append(t)
         elif r < (0.985 if big else 0.92):
-            ops.append(["q", str(qtime())])
+            ops.append(qop())
         else:
             ops.append(["m", rng.randrange(1000)])
     for _ in range(6 if not big else 40):
-        ops.append(["q", str(qtime())])
-    return dict(y0=vec(), shape=shape, t0=str(t0), cap=cap, init_cap=init_cap, dtype=dtype, ops=ops, wild=wild, scaled=scaled)
+        ops.append(qop())
+    return dict(y0=vec(), shape=shape, t0=str(t0), cap=cap, init_cap=init_cap, dtype=dtype, ops=ops, wild=wild, scaled=scaled, typed=typed, t0_type=ttype)
 
 def nontrivial(case):
     eff_cap = case["cap"]
@@ -212,7 +239,7 @@ def check(ctx):
         rp = json.load(open(ctx.replay))
         cases = [rp["case"]] if "case" in rp else []
     else:
-        cases = (load_corpus("C19") + [gen_case(ctx.rng) for _ in range(n_small)] + [gen_case(ctx.rng, wild=True) for _ in range(n_small // 3)] + [gen_case(ctx.rng, scaled=True) for _ in range(n_small // 3)]
+        cases = (load_corpus("C19") + [gen_case(ctx.rng) for _ in range(n_small)] + [gen_case(ctx.rng, wild=True) for _ in range(n_small // 3)] + [gen_case(ctx.rng, scaled=True) for _ in range(n_small // 3)] + [gen_case(ctx.rng, typed=True) for _ in range(n_small // 3)]
                  + [gen_case(ctx.rng, big=True) for _ in range(n_big)])
     outs = run_impl(ctx, "c19", "impl", cases)
     crashed = [i for i, r in enumerate(outs) if isinstance(r, dict)]
@@ -227,7 +254,7 @@ def check(ctx):
              shrink=lambda c: shrink(ctx, c),
              show=lambda c: (lambda r: dict(implementation_output=r, model_output=model_outputs(ctx, c, r, "show") if not isinstance(r, dict) else None))(fails(ctx, c, "show")[1]))
     nt = {canon(c) for c in cases if nontrivial(c)}
-    hist = dict(wild_float_data=sum(1 for c in cases if c.get("wild")), large_time_small_spacing=sum(1 for c in cases if c.get("scaled")), complex128=sum(1 for c in cases if c["dtype"] == "complex128"), bounded=sum(1 for c in cases if c["cap"] is not None), float32=sum(1 for c in cases if c["dtype"] == "float32"),
+    hist = dict(wild_float_data=sum(1 for c in cases if c.get("wild")), large_time_small_spacing=sum(1 for c in cases if c.get("scaled")), typed_time_stamps={ty: sum(1 for c in cases if c.get("t0_type") == ty) for ty in ("f32", "arr32", "f16", "i32", "i64", "int", "longdouble", "arr64", "f64")}, complex128=sum(1 for c in cases if c["dtype"] == "complex128"), bounded=sum(1 for c in cases if c["cap"] is not None), float32=sum(1 for c in cases if c["dtype"] == "float32"),
                 with_growth=sum(1 for c in cases if c["cap"] is None and sum(1 for o in c["ops"] if o[0] == "u") + 1 > c["init_cap"]),
                 real_capacity_1024=sum(1 for c in cases if c["init_cap"] == 1024 and c["cap"] is None),
                 ops=dict(update=sum(1 for c in cases for o in c["ops"] if o[0] == "u"), query=sum(1 for c in cases for o in c["ops"] if o[0] == "q"),
